@@ -375,3 +375,59 @@ def replay_formula(ctx, spec, f):
                 if last.get("reproduced"):
                     return last
     return last
+
+
+# ---------------------------------------------------------------------------------------------
+# Scalar-kernel accuracy harnesses (appended to src/yuv_rgb/transfer.rs): same oracle and tolerance as acc_harness, but the
+# private scalar curve is called directly, which is ~50x cheaper per input than going through the Vec-based public API, so the
+# grids can be much denser.  That the public API dispatches to exactly these scalar kernels is the formula-level differential
+# and the pointwise lemma (C11).
+SCALAR = {("BT1886", True): "rec_1886_eotf", ("BT1886", False): "rec_1886_inverse_eotf", ("BT470M", True): "rec_470m_oetf", ("BT470M", False): "rec_470m_inverse_oetf",
+          ("BT470BG", True): "rec_470bg_oetf", ("BT470BG", False): "rec_470bg_inverse_oetf", ("SRGB", True): "srgb_eotf", ("SRGB", False): "srgb_inverse_eotf",
+          ("XVYCC", True): "xvycc_eotf", ("XVYCC", False): "xvycc_inverse_eotf", ("Log100", True): "log100_inverse_oetf", ("Log100", False): "log100_oetf",
+          ("Log316", True): "log316_inverse_oetf", ("Log316", False): "log316_oetf", ("PQ", True): "st_2084_inverse_oetf", ("PQ", False): "st_2084_oetf",
+          ("HLG", True): "arib_b67_inverse_oetf", ("HLG", False): "arib_b67_oetf"}
+SCALAR_PRELUDE = """
+#[cfg(kani)]
+#[allow(dead_code, unused_imports, clippy::all, clippy::pedantic, clippy::nursery)]
+mod verif_tr_scalar {
+    use super::*;
+"""
+
+
+def acc_scalar(name, to_linear, pts, chunk):
+    hname = "k_cv_sacc_%s_%s_%d" % ("lin" if to_linear else "gam", name.lower(), chunk)
+    xs = [bits_of(p) for p in pts]
+    want = [define(name, to_linear, D(f32_of_bits(b))) for b in xs]
+    return hname, r"""
+    #[kani::proof]
+    fn %(hname)s() {
+        const XS: [u32; %(n)d] = [%(xs)s];
+        const WANT: [f64; %(n)d] = [%(want)s];
+        let in_i: usize = kani::any();
+        kani::assume(in_i < %(n)d);
+        let y = %(fn)s(f32::from_bits(XS[in_i]));
+        assert!((y as f64 - WANT[in_i]).abs() < %(tol)s, "%(desc)s");
+        kani::cover!(in_i == %(n)d - 1, "last grid point explored");
+    }
+""" % dict(hname=hname, n=len(xs), xs=", ".join(str(b) for b in xs), want=", ".join("%.17e" % float(w) for w in want), fn=SCALAR[(name, to_linear)],
+           tol="%.4e" % tol(name, to_linear), desc="%s %s (scalar kernel) within %.1e of its defining formula" % (name, "gamma->linear" if to_linear else "linear->gamma", tol(name, to_linear)))
+
+
+def rt_scalar(name, pts, chunk):
+    hname = "k_cv_srt_%s_%d" % (name.lower(), chunk)
+    xs = [bits_of(p) for p in pts]
+    t = 5.7e-4 if name == "PQ" else 2.5e-4
+    return hname, r"""
+    #[kani::proof]
+    fn %(hname)s() {
+        const XS: [u32; %(n)d] = [%(xs)s];
+        let in_i: usize = kani::any();
+        kani::assume(in_i < %(n)d);
+        let x = f32::from_bits(XS[in_i]);
+        let y = %(g)s(%(l)s(x));
+        assert!((y - x).abs() < %(tol)s, "%(desc)s");
+        kani::cover!(in_i == %(n)d - 1, "last grid point explored");
+    }
+""" % dict(hname=hname, n=len(xs), xs=", ".join(str(b) for b in xs), l=SCALAR[(name, True)], g=SCALAR[(name, False)], tol="%.4e" % t,
+           desc="%s gamma->linear->gamma (scalar kernels) returns x within %.1e" % (name, t))
